@@ -10,6 +10,7 @@ import (
 	"go/types"
 	"sort"
 	"strings"
+	"sync"
 
 	"golang.org/x/tools/go/ssa"
 )
@@ -194,10 +195,21 @@ type SCCP struct {
 	memo    map[string]*fnState
 	busy    map[string]bool
 	Escapes []string
+	used    map[string]bool // binding keys that matched at least once
 }
 
 // globalInits reads constant initialisers of module package variables from the init functions.
+var (
+	giOnce sync.Once
+	giMap  map[*ssa.Global]AVal
+)
+
 func (c *Ctx) globalInits() map[*ssa.Global]AVal {
+	giOnce.Do(func() { giMap = c.globalInits1() })
+	return giMap
+}
+
+func (c *Ctx) globalInits1() map[*ssa.Global]AVal {
 	out := map[*ssa.Global]AVal{}
 	multi := map[*ssa.Global]bool{}
 	for _, f := range c.Funcs {
@@ -233,7 +245,7 @@ func newSCCP(c *Ctx, sc *Scenario) *SCCP {
 	if sc.MaxDepth == 0 {
 		sc.MaxDepth = 3
 	}
-	return &SCCP{c: c, sc: sc, globals: c.globalInits(), memo: map[string]*fnState{}, busy: map[string]bool{}}
+	return &SCCP{c: c, sc: sc, globals: c.globalInits(), memo: map[string]*fnState{}, busy: map[string]bool{}, used: map[string]bool{}}
 }
 
 func argsKey(fn *ssa.Function, args []AVal) string {
@@ -428,13 +440,79 @@ func (s *SCCP) lookupBinding(m map[string]AVal, fn *ssa.Function, key string) (A
 		return bot, false
 	}
 	if v, ok := m[fname(fn)+":"+key]; ok {
+		s.used[key] = true
 		return v, true
 	}
 	if v, ok := m[fn.Name()+":"+key]; ok {
+		s.used[key] = true
 		return v, true
 	}
 	v, ok := m[key]
+	if ok {
+		s.used[key] = true
+	}
 	return v, ok
+}
+
+// bindingFor tries the variable-name path first and the type-qualified path second
+// ("fat2.Transaction.Conversion"): the latter survives renaming of locals.
+func (s *SCCP) bindingFor(m map[string]AVal, fn *ssa.Function, v ssa.Value) (AVal, bool) {
+	if m == nil {
+		return bot, false
+	}
+	if p := valuePath(v); p != "" {
+		if b, ok := s.lookupBinding(m, fn, p); ok {
+			return b, true
+		}
+	}
+	if p := typePath(v); p != "" {
+		if b, ok := s.lookupBinding(m, fn, p); ok {
+			return b, true
+		}
+	}
+	return bot, false
+}
+
+// typePath names a field read by the struct type that declares the field: "pkg.Type.Field".
+func typePath(v ssa.Value) string {
+	switch x := v.(type) {
+	case *ssa.UnOp:
+		if x.Op == token.MUL {
+			return typePath(x.X)
+		}
+	case *ssa.FieldAddr:
+		st := derefStruct(x.X.Type())
+		tn := namedShort(x.X.Type())
+		if st != nil && tn != "" {
+			return tn + "." + st.Field(x.Field).Name()
+		}
+	case *ssa.Field:
+		st, _ := x.X.Type().Underlying().(*types.Struct)
+		tn := namedShort(x.X.Type())
+		if st != nil && tn != "" {
+			return tn + "." + st.Field(x.Field).Name()
+		}
+	case *ssa.Lookup:
+		m := valuePath(x.X)
+		if m == "" {
+			m = typePath(x.X)
+		}
+		k := typePath(x.Index)
+		if m != "" && k != "" {
+			return m + "[" + k + "]"
+		}
+	case *ssa.Extract:
+		if lk, ok := x.Tuple.(*ssa.Lookup); ok && x.Index == 0 {
+			return typePath(lk)
+		}
+	case *ssa.ChangeType:
+		return typePath(x.X)
+	case *ssa.Convert:
+		return typePath(x.X)
+	case *ssa.Global:
+		return x.Pkg.Pkg.Name() + "." + x.Name()
+	}
+	return ""
 }
 
 // run analyses fn with the given abstract arguments.
@@ -610,10 +688,8 @@ func (s *SCCP) eval(st *fnState, v ssa.Value, get func(ssa.Value) AVal, depth in
 	case *ssa.UnOp:
 		switch x.Op {
 		case token.MUL:
-			if p := valuePath(x); p != "" {
-				if b, ok := s.lookupBinding(s.sc.Paths, fn, p); ok {
-					return b
-				}
+			if b, ok := s.bindingFor(s.sc.Paths, fn, x); ok {
+				return b
 			}
 			if g, ok := x.X.(*ssa.Global); ok {
 				if b, ok := s.sc.Globals[g.Pkg.Pkg.Name()+"."+g.Name()]; ok {
@@ -716,13 +792,13 @@ func (s *SCCP) eval(st *fnState, v ssa.Value, get func(ssa.Value) AVal, depth in
 			return bot
 		}
 		if lk, ok := x.Tuple.(*ssa.Lookup); ok && x.Index == 0 {
-			if b, ok := s.lookupBinding(s.sc.Lookups, fn, valuePath(lk)); ok {
+			if b, ok := s.bindingFor(s.sc.Lookups, fn, lk); ok {
 				return b
 			}
 		}
 		return top
 	case *ssa.Lookup:
-		if b, ok := s.lookupBinding(s.sc.Lookups, fn, valuePath(x)); ok {
+		if b, ok := s.bindingFor(s.sc.Lookups, fn, x); ok {
 			if x.CommaOk {
 				return AVal{K: ATuple, Tup: []AVal{b, top}}
 			}
@@ -733,17 +809,13 @@ func (s *SCCP) eval(st *fnState, v ssa.Value, get func(ssa.Value) AVal, depth in
 		}
 		return top
 	case *ssa.Field:
-		if p := valuePath(x); p != "" {
-			if b, ok := s.lookupBinding(s.sc.Paths, fn, p); ok {
-				return b
-			}
+		if b, ok := s.bindingFor(s.sc.Paths, fn, x); ok {
+			return b
 		}
 		return top
 	case *ssa.Index:
-		if p := valuePath(x); p != "" {
-			if b, ok := s.lookupBinding(s.sc.Paths, fn, p); ok {
-				return b
-			}
+		if b, ok := s.bindingFor(s.sc.Paths, fn, x); ok {
+			return b
 		}
 		return top
 	case *ssa.FieldAddr, *ssa.IndexAddr, *ssa.Alloc, *ssa.MakeMap, *ssa.MakeSlice, *ssa.MakeChan, *ssa.MakeClosure:
@@ -831,10 +903,8 @@ func (s *SCCP) evalCall1(st *fnState, x *ssa.Call, get func(ssa.Value) AVal, dep
 	if bi, ok := cc.Value.(*ssa.Builtin); ok {
 		switch bi.Name() {
 		case "len":
-			if p := valuePath(cc.Args[0]); p != "" {
-				if b, ok := s.lookupBinding(s.sc.Lens, st.fn, p); ok {
-					return b
-				}
+			if b, ok := s.bindingFor(s.sc.Lens, st.fn, cc.Args[0]); ok {
+				return b
 			}
 			a := get(cc.Args[0])
 			if a.isConst() && a.C.Kind() == constant.String {
@@ -1147,4 +1217,74 @@ func execReaches(st *fnState, a, b ssa.Instruction) bool {
 		}
 	}
 	return false
+}
+
+// unusedBindings lists scenario keys that never matched a value: the anchor moved.
+func (s *SCCP) unusedBindings() []string {
+	var out []string
+	for _, m := range []map[string]AVal{s.sc.Paths, s.sc.Lookups, s.sc.Lens} {
+		for k := range m {
+			kk := k
+			if i := strings.Index(k, ":"); i >= 0 {
+				kk = k[i+1:]
+			}
+			if !s.used[kk] && !s.used[k] {
+				out = append(out, k)
+			}
+		}
+	}
+	sort.Strings(out)
+	return out
+}
+
+// tableAcc accumulates, over all scenarios of one decision table, which scenario keys matched a
+// value at least once; a key that never matches means the anchor moved (rename, refactor) and the
+// table would be vacuous.
+type tableAcc struct {
+	all, used map[string]bool
+	n         int
+}
+
+func newTableAcc() *tableAcc { return &tableAcc{all: map[string]bool{}, used: map[string]bool{}} }
+
+func (a *tableAcc) run(c *Ctx, r *Report, fn *ssa.Function, sc *Scenario) (*Trace, *SCCP) {
+	s := newSCCP(c, sc)
+	t := s.analyse(fn, nil)
+	a.absorb(s)
+	if r != nil {
+		r.Scen++
+	}
+	return t, s
+}
+
+func (a *tableAcc) absorb(s *SCCP) {
+	a.n++
+	for _, m := range []map[string]AVal{s.sc.Paths, s.sc.Lookups, s.sc.Lens} {
+		for k := range m {
+			a.all[k] = true
+			kk := k
+			if i := strings.Index(k, ":"); i >= 0 {
+				kk = k[i+1:]
+			}
+			if s.used[kk] || s.used[k] {
+				a.used[k] = true
+			}
+		}
+	}
+}
+
+// report emits an UNDECIDED obligation for keys that never matched.
+func (a *tableAcc) report(c *Ctx, r *Report, rule string, fn *ssa.Function) bool {
+	var un []string
+	for k := range a.all {
+		if !a.used[k] {
+			un = append(un, k)
+		}
+	}
+	sort.Strings(un)
+	if len(un) > 0 {
+		r.undecided(rule, "scenario bindings of "+fname(fn), c.pos(fn.Pos()), "scenario keys matched no value in any scenario (anchor moved, table would be vacuous): "+strings.Join(un, ", "))
+		return false
+	}
+	return true
 }
